@@ -136,14 +136,10 @@ Eval(e, env) ==
                         ELSE ErrA("UnknownVariableError", e.name)
       [] e.t = "Const" -> e.v
       \* c1 + c2 + ... + cn in operand order; the empty sum / product is 0 / 1
-      [] e.t = "Sum" -> IF Len(e.c) = 0 THEN IntV(0)
-                        ELSE LET vs == EvalSeq(e.c, env) IN
-                             IF Len(vs) = 1 /\ IsObjLike(vs[1]) THEN Unrep
-                             ELSE FoldL("+", vs[1], Tail(vs))
-      [] e.t = "Product" -> IF Len(e.c) = 0 THEN IntV(1)
-                        ELSE LET vs == EvalSeq(e.c, env) IN
-                             IF Len(vs) = 1 /\ IsObjLike(vs[1]) THEN Unrep
-                             ELSE FoldL("*", vs[1], Tail(vs))
+      \* the sum of the operands in order, as Python's sum() forms it: 0 + c1 + ... + cn
+      \* (so the sum of one bool is an int); likewise 1 * c1 * ... * cn
+      [] e.t = "Sum" -> FoldL("+", IntV(0), EvalSeq(e.c, env))
+      [] e.t = "Product" -> FoldL("*", IntV(1), EvalSeq(e.c, env))
       [] e.t \in {"BitOr", "BitXor", "BitAnd"} ->
             IF Len(e.c) = 0 THEN Err("TypeError")
             ELSE LET vs == EvalSeq(e.c, env) IN FoldL(NaryOpOf(e.t), vs[1], Tail(vs))
@@ -187,6 +183,13 @@ Eval(e, env) ==
 \* different-but-legitimate error when several are present)
 AllErrs(e, env) == {v \in {Eval(s, env) : s \in SubExprs(e)} : IsErr(v)}
 
+RECURSIVE KindEq(_, _)
+KindEq(a, b) ==
+    IF IsNum(a) /\ IsNum(b) THEN a.k = b.k
+    ELSE IF a.k \in {"tup", "list"} /\ b.k = a.k /\ Len(a.items) = Len(b.items)
+         THEN \A i \in 1..Len(a.items) : KindEq(a.items[i], b.items[i])
+    ELSE TRUE
+
 \* verdict on one observation: "OK", "SKIP" or a failing clause
 JudgeVal(expected, got, e, env) ==
     IF IsUnrep(expected) \/ IsUnrep(got) THEN "SKIP"
@@ -196,4 +199,11 @@ JudgeVal(expected, got, e, env) ==
          ELSE IF IsErr(got) THEN "wrong-error" ELSE "value-instead-of-error")
     ELSE IF IsErr(got) THEN "error-instead-of-value"
     ELSE IF ValEq(expected, got) THEN "OK" ELSE "wrong-value"
+
+\* type-strict variant: same value but another numeric type (int / float / Fraction / bool)
+\* is a failure too - the result of the "ordinary Python operator" has a definite type,
+\* which PyNum models
+JudgeValT(expected, got, e, env) ==
+    LET v == JudgeVal(expected, got, e, env) IN
+    IF v = "OK" /\ ~IsErr(expected) /\ ~KindEq(expected, got) THEN "wrong-type" ELSE v
 =============================================================================
